@@ -789,29 +789,41 @@ func checkWhoMayAdvance(p *Prog, r *Roles, res *Result, rule string) {
 	}
 }
 
-// isLeaderStartCallback: f is the function literal stored into leaderelection.LeaderCallbacks.OnStartedLeading.
-func isLeaderStartCallback(p *Prog, f *ssa.Function) bool {
-	if f.Parent() == nil {
-		return false
+// leaderCallbacks: the functions stored into the fields of client-go's leaderelection.LeaderCallbacks anywhere in the
+// repo (function literals, method values, named functions), by field name.
+func (p *Prog) leaderCallbacks() map[string][]*ssa.Function {
+	if p.leaderCbs != nil {
+		return p.leaderCbs
 	}
-	for _, b := range f.Parent().Blocks {
-		for _, ins := range b.Instrs {
-			st, ok := ins.(*ssa.Store)
-			if !ok {
-				continue
-			}
-			fa, ok := st.Addr.(*ssa.FieldAddr)
-			if !ok || fieldOf(fa).Name() != "OnStartedLeading" {
-				continue
-			}
-			if !isNamed(fa.X.Type().Underlying().(*types.Pointer).Elem(), "k8s.io/client-go/tools/leaderelection", "LeaderCallbacks") {
-				continue
-			}
-			for _, fv := range p.funcValues(st.Val, 0) {
-				if fv == f {
-					return true
+	out := map[string][]*ssa.Function{}
+	for _, g := range p.AllFuncs {
+		for _, b := range g.Blocks {
+			for _, ins := range b.Instrs {
+				st, ok := ins.(*ssa.Store)
+				if !ok {
+					continue
 				}
+				fa, ok := st.Addr.(*ssa.FieldAddr)
+				if !ok {
+					continue
+				}
+				pt, ok := fa.X.Type().Underlying().(*types.Pointer)
+				if !ok || !isNamed(pt.Elem(), "k8s.io/client-go/tools/leaderelection", "LeaderCallbacks") {
+					continue
+				}
+				out[fieldOf(fa).Name()] = append(out[fieldOf(fa).Name()], p.funcValues(st.Val, 0)...)
 			}
+		}
+	}
+	p.leaderCbs = out
+	return out
+}
+
+// isLeaderStartCallback: f is the function stored into leaderelection.LeaderCallbacks.OnStartedLeading.
+func isLeaderStartCallback(p *Prog, f *ssa.Function) bool {
+	for _, g := range p.leaderCallbacks()["OnStartedLeading"] {
+		if g == f {
+			return true
 		}
 	}
 	return false
